@@ -923,6 +923,7 @@ func runProperty(prop, tier string, seed uint64) int {
 		"pool_cleared":                      int64(agg["sim.PoolClears"]),
 		"gc_forced_inside_library_call":     int64(agg["sim.GCForced"]),
 		"gc_forced_between_operations":      int64(agg["probes.GCBetweenOps"]),
+		"set_on_stack_copy_deep_in_stack":   int64(agg["probes.StackSets"]),
 		"pool_non_lifo_reuse":               int64(agg["sim.PoolNonLIFO"]),
 		"preempt_inside_library":            int64(agg["sim.PreemptInLib"]),
 		"switch_at_sync_or_op_boundary":     int64(agg["sim.Switches"] - agg["sim.PreemptInLib"]),
